@@ -39,8 +39,8 @@ type c34cfg struct {
 	majority int32
 	lockers  int
 	thr      []c34thr
-	// event: "" | del (another application deletes a majority of the lock keys; offered as a deviation after every
-	// script a locker runs) | del1 (deletes one key of three: a minority) | neterr (one script call made for a live
+	// event: "" | del (another application deletes a majority of the lock keys; offered as a deviation before every
+	// script a locker sends) | del1 (deletes one key of three: a minority) | neterr (one script call made for a live
 	// holder fails with a transient transport error; deviation) | lose (the connection of the holder's client is lost
 	// for good) | losere (lost and re-established) | close (the holder's Locker is closed) | cancel (the context given
 	// to the withc thread is cancelled)
@@ -150,6 +150,12 @@ func c34body(c c34cfg) func(x *vsched.Exec) {
 			return nil
 		}
 		closed := make([]bool, c.lockers)
+		forcer := make([]bool, c.lockers) // lockers used with ForceWithContext
+		for _, t := range c.thr {
+			if t.op == "force" {
+				forcer[t.locker] = true
+			}
+		}
 		evDone := false
 		evWhat := ""
 
@@ -281,8 +287,11 @@ func c34body(c c34cfg) func(x *vsched.Exec) {
 							vals = append(vals, v)
 						}
 						for _, o := range vals {
-							if o.own[ki] && o != v { // a forced SET overwrites the previous owner's value
-								o.own[ki], o.lost[ki] = false, true
+							if o.own[ki] && o != v {
+								o.own[ki] = false
+								if forcer[li] { // a forced SET overwrites the previous owner's value: that owner was robbed
+									o.lost[ki] = true
+								}
 							}
 						}
 						v.own[ki] = true
@@ -300,9 +309,16 @@ func c34body(c c34cfg) func(x *vsched.Exec) {
 			}
 			refresh()
 			checkExcl("server command " + name)
-			if (c.event == "del" || c.event == "del1") && !evDone && vsched.Cur() != nil {
-				if vsched.Choose(2, vsched.KDev, "extdel") == 1 {
-					extDel()
+		}
+		if c.event == "del" || c.event == "del1" {
+			// the other application's DEL is offered before every script a locker sends (i.e. between two commands, so
+			// that its invalidation is on the wire in the order a real server would produce)
+			for _, cl := range clients {
+				cl.Fail = func(argv []string) error {
+					if !evDone && (argv[0] == "EVALSHA" || argv[0] == "EVAL") && vsched.Cur() != nil && vsched.Choose(2, vsched.KDev, "extdel") == 1 {
+						extDel()
+					}
+					return nil
 				}
 			}
 		}
@@ -466,6 +482,11 @@ func c34body(c c34cfg) func(x *vsched.Exec) {
 		if st != vsched.Quiescent {
 			if st == vsched.Deadlock || st == vsched.Horizon {
 				vsched.Logf("state at %s (t=%v): %s", st, x.Elapsed(), describe())
+				for _, h := range holders {
+					if h.must && !h.pastAwait && c34live(h.ctx) {
+						x.Fail("lock context not cancelled after the holder lost its keys / connection", "%s: thread %d (locker %d) had to be cancelled from %v on (event %s) and is still live at %v; %s", st, h.thr, h.locker, h.mustAt, c.event, x.Elapsed(), describe())
+					}
+				}
 				// name the cause when a WithContext caller waits on a gate that its locker no longer knows
 				for ti, t := range c.thr {
 					if !inWith[ti] {
